@@ -13,6 +13,7 @@ from __future__ import annotations
 from functools import lru_cache
 import itertools as itt
 
+from ..builder import NAMES3, build_ops, replay_sequence, run_sequences
 from ..ctf import events2, base_assignments, event_json, event_from_json, events, ground_items, node_to_item, to_event
 from ..fscm import FSCM
 from ..graphs import G, enum_L, enum_O, is_acyclic
@@ -41,7 +42,27 @@ def event_space(g: G, tier):
 def shards(tier):
     n = len(_universe(tier))
     idx = sorted(range(n), key=lambda i: -len(_universe(tier)[i].nodes))
-    return [(i, i + 1) for i in idx]
+    # builder phase: one live graph object grown edge by edge, the construction asked after every insertion
+    return [(i, i + 1) for i in idx] + [("build", i) for i in range(len(build_ops(NAMES3)))]
+
+
+def _builder_judge(res, seed):
+    from .C07 import canonical_graph
+
+    def judge(y, g, hist):
+        cg = canonical_graph(g.nodes, g.di, g.bi)
+        m = FSCM(cg, salt=f"f{seed}")
+        before = len(res.violations)
+        for items in events(cg.nodes, 2, 1, 1, reflexive=False):
+            case = {"graph": cg.to_json(), "event": event_json(items), "builder_ops": hist}
+            check_event(res, cg, y, m, items, case)
+        if len(res.violations) > before:
+            res.outcomes["wrong_after_mutation"] += 1
+            return False
+        res.outcomes["builder_step_ok"] += 1
+        return True
+
+    return judge
 
 
 def describe(tier):
@@ -53,7 +74,9 @@ def describe(tier):
             else "graphs L(1..3) all labelled ADMGs (single items with up to 3 subscripts, pairs with up to 2 each) + O(4, <=3 "
             "edges) (singles up to 2, pairs up to 1)"
         )
-        + "; subscripts may include the variable itself; values - and +; every base value assignment",
+        + "; subscripts may include the variable itself; values - and +; every base value assignment; plus every sequence of 3 "
+        "edge insertions over 3 names on one live graph object, the construction asked for every non-reflexive event of up to "
+        "two items (up to one subscript each) after every insertion",
         "rule": "state = (graph, event); transition = one make_counterfactual_graph call; the relabelled event's probability "
         "is compared with the original's by enumerating all exogenous settings of the functional witness SCM",
         "assumptions": ["binary functional witness SCM with hash-derived mechanisms stands in for 'all SCMs'"],
@@ -123,8 +146,11 @@ def explore_graph(res: Res, g: G, tier, seed, only=None):
 
 
 def work(shard, tier, seed):
-    lo, hi = shard
     res = Res()
+    if shard[0] == "build":
+        res.states += run_sequences(shard[1], 3, _builder_judge(res, seed), names=NAMES3)
+        return res
+    lo, hi = shard
     for g in _universe(tier)[lo:hi]:
         explore_graph(res, g, tier, seed)
     return res
@@ -134,5 +160,8 @@ def replay(case, clause=None):
     import os
 
     res = Res()
+    if "builder_ops" in case:
+        replay_sequence(case["builder_ops"], _builder_judge(res, int(os.environ.get("VERIF_SEED", "0") or 0)))
+        return [v for v in res.violations if (clause is None or v["clause"] == clause) and v["input"].get("event") == case.get("event")][:1]
     explore_graph(res, G.from_json(case["graph"]), "thorough", int(os.environ.get("VERIF_SEED", "0") or 0), only=event_from_json(case["event"]))
     return [v for v in res.violations if clause is None or v["clause"] == clause]
